@@ -161,6 +161,93 @@ Lemma rank_ok_same_dom c c' rk M :
   rank_ok c rk M -> rank_ok c' rk M.
 Proof. intros Hd He [H1 _]. split; [intros k Hk; apply H1, Hd, Hk|exact He]. Qed.
 
+(* ------------------------------------------------------------------ a process takes a message and goes on as pp' *)
+Lemma topo_recv_generic c p pp k st m pp' (clk : bool) :
+  Topo c -> procs c !! p = Some pp -> chans c !! k = Some st -> ch_buf st = Some m -> ch_closed st = false ->
+  (forall j, j ∈ cids_of (pr_provs pp') -> j ∈ cids_of (pr_provs pp) \/ j ∈ provides (OMsg k m)) ->
+  (forall j, j ∈ form_chans (pr_body0 pp') -> j ∈ form_chans (pr_body0 pp) \/ j ∈ refs (OMsg k m)) ->
+  (forall j, j ∈ cids_of (pr_provs pp) \/ j ∈ provides (OMsg k m) ->
+     j ∈ cids_of (pr_provs pp') \/
+     ((j ∈ form_chans (pr_body0 pp) \/ j ∈ refs (OMsg k m)) /\ j ∉ form_chans (pr_body0 pp'))) ->
+  (clk = true -> (k ∈ cids_of (pr_provs pp) \/ k ∈ provides (OMsg k m)) /\
+                 (k ∈ form_chans (pr_body0 pp) \/ k ∈ refs (OMsg k m)) /\
+                 k ∉ cids_of (pr_provs pp') /\ k ∉ form_chans (pr_body0 pp')) ->
+  (forall rk M, rank_ok c rk M -> forall j i, j ∈ cids_of (pr_provs pp') -> i ∈ form_chans (pr_body0 pp') -> (rk j < rk i)%nat) ->
+  Topo (Cfg (<[p := pp']> (procs c)) (<[k := Chan None clk]> (chans c)) (out c)).
+Proof.
+  intros Ht Hp Hk Hb Hcl Hprov Hrefs Hdang Hclk Hrank.
+  set (c' := Cfg (<[p := pp']> (procs c)) (<[k := Chan None clk]> (chans c)) (out c)).
+  assert (Hmsg : obj_in c (OMsg k m)) by (exists st; done).
+  assert (Hobj' : forall o', obj_in c' o' ->
+            match o' with
+            | OProc r rr => (r = p /\ rr = pp') \/ (r <> p /\ procs c !! r = Some rr)
+            | OMsg k' m' => k' <> k /\ obj_in c (OMsg k' m')
+            end).
+  { intros [r rr|k' m']; unfold c'; cbn.
+    - intros H. apply lookup_insert_Some in H as [[<- <-]|[Hn H]]; [by left|right]. split; [congruence|done].
+    - intros (st' & H & Hbuf). apply lookup_insert_Some in H as [[<- <-]|[Hn H]]; [discriminate|].
+      split; [congruence|]. by exists st'. }
+  assert (HinX : forall o, o ∈ [OMsg k m; OProc p pp] <-> o = OMsg k m \/ o = OProc p pp).
+  { intros o. rewrite elem_of_cons, elem_of_list_singleton. tauto. }
+  apply (topo_rewrite c c' [OMsg k m; OProc p pp] [OProc p pp'] (fun _ => False)); try done.
+  - intros o Ho. apply HinX in Ho as [->| ->]; done.
+  - intros [r rr|k' m'] Ho.
+    + destruct (decide (r = p)) as [->|Hn]; [left|right].
+      * cbn in Ho. rewrite Hp in Ho. injection Ho as <-. apply HinX. by right.
+      * intros H. apply HinX in H as [H|H]; congruence.
+    + destruct (decide (k' = k)) as [->|Hn]; [left|right].
+      * destruct Ho as (st' & H & Hbuf). rewrite Hk in H. injection H as <-. rewrite Hb in Hbuf. injection Hbuf as <-.
+        apply HinX. by left.
+      * intros H. apply HinX in H as [H|H]; congruence.
+  - intros o' Ho'. specialize (Hobj' o' Ho'). destruct o' as [r rr|k' m'].
+    + destruct Hobj' as [[-> ->]|[Hn H]]; [right; by apply elem_of_list_singleton|].
+      left. split; [exact H|]. intros Hx. apply HinX in Hx as [Hx|Hx]; congruence.
+    + destruct Hobj' as [Hn H]. left. split; [exact H|]. intros Hx. apply HinX in Hx as [Hx|Hx]; congruence.
+  - intros [r rr|k' m'] Ho Hx; unfold c'; cbn.
+    + cbn in Ho. rewrite lookup_insert_ne; [exact Ho|]. intros <-. apply Hx. apply HinX. right.
+      rewrite Hp in Ho. by injection Ho as <-.
+    + destruct Ho as (st' & H & Hbuf). exists st'. split; [|done]. rewrite lookup_insert_ne; [done|].
+      intros <-. apply Hx. apply HinX. left. rewrite Hk in H. injection H as <-. rewrite Hb in Hbuf. by injection Hbuf as <-.
+  - intros o' Ho'. apply elem_of_list_singleton in Ho' as ->. unfold c'. cbn. apply lookup_insert.
+  - intros o' j Ho' Hj. apply elem_of_list_singleton in Ho' as ->. left. cbn in Hj.
+    destruct (Hprov j Hj) as [H|H]; [exists (OProc p pp)|exists (OMsg k m)]; (split; [apply HinX; auto|done]).
+  - intros o' j Ho' Hj. apply elem_of_list_singleton in Ho' as ->. left. cbn in Hj.
+    destruct (Hrefs j Hj) as [H|H]; [exists (OProc p pp)|exists (OMsg k m)]; (split; [apply HinX; auto|done]).
+  - intros o1 o2 j H1 H2 _ _. apply elem_of_list_singleton in H1, H2. congruence.
+  - intros o1 o2 j H1 H2 _ _. apply elem_of_list_singleton in H1, H2. congruence.
+  - intros o j Ho Hj.
+    assert (Hj' : j ∈ cids_of (pr_provs pp) \/ j ∈ provides (OMsg k m)) by (apply HinX in Ho as [->| ->]; auto).
+    destruct (Hdang j Hj') as [H|[Hr Hn]].
+    + left. exists (OProc p pp'). split; [by apply elem_of_list_singleton|done].
+    + right. split.
+      * intros o2 Ho2 Hj2. apply HinX.
+        destruct Hr as [Hr|Hr]; [right; eapply (topo_ref_unique c Ht _ _ j); eauto|left; eapply (topo_ref_unique c Ht _ _ j); eauto].
+      * intros o' Ho'. apply elem_of_list_singleton in Ho' as ->. exact Hn.
+  - intros k' st' Hk' Hcl'. unfold c' in Hk'. cbn in Hk'. apply lookup_insert_Some in Hk' as [[<- <-]|[Hn Hk']].
+    + right. split; [done|]. cbn in Hcl'. destruct (Hclk Hcl') as (Hkp & Hkr & Hn1 & Hn2).
+      intros o' Ho'. specialize (Hobj' o' Ho'). destruct o' as [r rr|k' m'].
+      * destruct Hobj' as [[-> ->]|[Hne H]]; [done|]. split.
+        -- intros Hj. destruct Hkp as [Hkp|Hkp];
+             [assert (E : OProc r rr = OProc p pp) by (eapply (topo_prov_unique c Ht _ _ k); eauto); congruence
+             |assert (E : OProc r rr = OMsg k m) by (eapply (topo_prov_unique c Ht _ _ k); eauto); discriminate].
+        -- intros Hj. destruct Hkr as [Hkr|Hkr];
+             [assert (E : OProc r rr = OProc p pp) by (eapply (topo_ref_unique c Ht _ _ k); eauto); congruence
+             |assert (E : OProc r rr = OMsg k m) by (eapply (topo_ref_unique c Ht _ _ k); eauto); discriminate].
+      * destruct Hobj' as [Hne H]. split.
+        -- intros Hj. destruct Hkp as [Hkp|Hkp];
+             [assert (E : OMsg k' m' = OProc p pp) by (eapply (topo_prov_unique c Ht _ _ k); eauto); discriminate
+             |assert (E : OMsg k' m' = OMsg k m) by (eapply (topo_prov_unique c Ht _ _ k); eauto); congruence].
+        -- intros Hj. destruct Hkr as [Hkr|Hkr];
+             [assert (E : OMsg k' m' = OProc p pp) by (eapply (topo_ref_unique c Ht _ _ k); eauto); discriminate
+             |assert (E : OMsg k' m' = OMsg k m) by (eapply (topo_ref_unique c Ht _ _ k); eauto); congruence].
+    + left. exists st'. done.
+  - intros rk M Hr. exists rk, M. eapply rank_ok_same_dom; [| |exact Hr].
+    + intros k' Hk'. unfold c' in Hk'. cbn in Hk'. apply lookup_insert_is_Some in Hk' as [<-|[_ H]]; [by eexists|done].
+    + intros o' k1 j Ho' Hk1 Hj. specialize (Hobj' o' Ho'). destruct o' as [r rr|k' m'].
+      * destruct Hobj' as [[-> ->]|[_ H]]; [eapply Hrank; eauto|]. destruct Hr as [_ Hr]. eapply (Hr (OProc r rr)); eauto.
+      * destruct Hobj' as [_ H]. destruct Hr as [_ Hr]. eapply (Hr (OMsg k' m')); eauto.
+Qed.
+
 Section Step.
 Variable D : tenv.
 Variable F : list fundef.
